@@ -152,6 +152,14 @@ def serveS (codec : String → Codec) (s : Server) (r : Request) : Outcome :=
     | none => .rejected Compression.rejectStatus
     | some st => .handled (limitRead s.limit st)
 
+/-- `WithErrorHandler`: the caller's handler replaces `defaultErrorHandler`; it is only ever invoked on the
+rejection path of `ServeHTTP`, with the message and `Compression.rejectStatus`. `eh = some f`: the status the
+caller's handler answers when handed status `st` is `f st`. -/
+def serveE (eh : Option (Nat → Nat)) (codec : String → Codec) (s : Server) (r : Request) : Outcome :=
+  match serveS codec s r with
+  | .rejected st => .rejected (match eh with | some f => f st | none => st)
+  | o => o
+
 /-- What earlier server constructions have written into the package-level `availableDecoders`.
 The code as it is only reads that map (`Compression.availableDecodersOnlyRead`, checked by the translator over
 the whole package), so this stays empty; if it were written (aliasing `enabled`/`d.decoders` with the global),
